@@ -250,6 +250,13 @@ def directed_doc(rng):
     g.add_stmt("assert fa.lo < fa.hi", "fa", "must", "test_close_only2", 4, all_occurrences=True)
     g.emit("    pass")
     g.emit("")
+    # a comment with parentheses after the signature's own "):"
+    fline = g.line_no()
+    g.emit("def test_commented(fb):  # regression (issue 12)")
+    g.funcs.append({"name": "test_commented", "line0": fline, "shape": "single+comment", "kind": "test", "declared": ["fb"], "simple": True})
+    g.add_stmt("w = fc.attr", "fc", "must", "test_commented", 4)
+    g.emit("    pass")
+    g.emit("")
     return g
 
 
